@@ -57,6 +57,13 @@ def step (_ : Unit) (ws : List String) : Unit × String :=
     match f.toNat? with
     | some f => ((), verdict (Spec.Cache.mgetOwnOk (b01 wr) (b01 wo) (b01 ao) (b01 lh) (b01 lo) f) "violates-property")
     | none => ((), "bad-op")
+  | ["!ctxdead", _, _, oe, jr, lr, lo] =>
+    ((), verdict (Spec.Cache.ctxDeadOk (b01 oe) (b01 jr) (b01 lr) (b01 lo)) "violates-property")
+  | ["!jsonident", p, q, eq] =>
+    match Hex.decode p, Hex.decode q with
+    | some p, some q => ((), verdict (Spec.Cache.jsonIdentOk p q (b01 eq))
+        (if b01 eq then "distinct-paths-share-an-entry" else "same-path-does-not-share-the-entry"))
+    | _, _ => ((), "bad-op")
   | _ => ((), "bad-op")
 
 def main : IO Unit := Hex.lineLoop () step
